@@ -20,6 +20,10 @@ project ("site")
       anchor-dup      an entity page has the same `id` attribute for two
                       *distinct* items (the same item emitted twice by a
                       template is not a C10 matter, see TEMPLATE_ARTEFACTS);
+      entity-url      two distinct entity objects of the project answer the same `get_url()`
+                      (an interface wrapper and the one procedure it wraps count as one
+                      documented thing), or two distinct entities with the same parent have
+                      the same `anchor` (siblings are listed together on one page);
       src-copy        `out/src/<f.name>` is byte-equal to `f.path` for every
                       source file, and the "Source File" link on an entity's
                       page leads to a file that contains the entity's tracer.
@@ -69,6 +73,14 @@ OPERATORS = ["operator(+)", "operator(-)", "operator(.add.)", "operator(.sub.)",
 ARITHMETIC = ["operator(+)", "operator(-)", "operator(*)", "operator(/)"]
 LOGICAL_OPS = {"operator(<)", "operator(>)", "operator(<=)", "operator(==)", "operator(/=)"}
 
+
+def space_spec(rng, spec: str) -> str:
+    """The generic spec `kw(op)` in another legal spacing (blanks between the tokens): FORD keeps the
+    text verbatim, so `operator (+)` and `operator(+)` are two names for it."""
+    kw, rest = spec.split("(", 1)
+    gap = lambda: " " * rng.choice([0, 0, 0, 1, 1, 2])  # noqa: E731
+    return f"{kw}{gap()}({gap()}{rest[:-1]}{gap()})"
+
 # FORD (fortran_project.py, `namelist_check`) collects the namelists of module
 # procedures, external procedures, programs and their procedures into
 # `project.namelists` - but not those declared in the specification part of a
@@ -105,6 +117,7 @@ class _Site:
         self.legal = True
         self.features: set[str] = set()
         self.proc_kind: dict[str, str] = {}  # lower external name -> subroutine|function
+        self.spaced = rng.random() < 0.5  # generic specs written with blanks between the tokens
 
     # -- names -----------------------------------------------------------
     def tracer(self) -> str:
@@ -327,6 +340,10 @@ class _Site:
                         procs += self.proc("  ", "function", f, file, sc, op=("op", ti, logical))
                         opfun = (f, logical)
                 spelled = op if self.clean else rng.choice([op, op, op, op.upper(), op.capitalize()])
+                if self.spaced:
+                    spelled = space_spec(rng, spelled)
+                    if " " in spelled:
+                        self.features.add("spaced-operator")
                 tt = self.tracer()
                 self.ent("generic", spelled, file, tt, sc)
                 decl += [f"  interface {spelled}", f"    !! {tt} generic {spelled}",
@@ -339,6 +356,28 @@ class _Site:
             nm, _k = rng.choice(plain)
             decl += [f"  interface {g}", f"    !! {tt} generic {g}",
                      f"    module procedure {self.respell(NAMES, nm)}", f"  end interface {g}"]
+        # generic interface whose specifics are interface bodies of external procedures
+        # (wrappers around a Fortran 77 / C library), possibly next to a module procedure
+        if rng.random() < 0.3:
+            g = self.pick(used)
+            tt = self.tracer()
+            self.ent("generic", g, file, tt, sc)
+            self.features.add("generic-with-bodies")
+            decl += [f"  interface {g}", f"    !! {tt} generic {g}"]
+            if rng.random() < 0.3:
+                nm, _k = rng.choice(plain)
+                decl.append(f"    module procedure {self.respell(NAMES, nm)}")
+            for _ in range(rng.choice([1, 2, 2, 3])):
+                for _try in range(4):
+                    nm = self.pick_global("procref", 0.7)
+                    if nm.lower() not in used:
+                        break
+                if nm.lower() in used:
+                    nm = self.filler()
+                used.add(nm.lower())
+                lines, _ = self.iface_body("    ", nm, self.ext_kind(nm), file, sc, "genericbody")
+                decl += lines
+            decl.append(f"  end interface {g}")
         # abstract interface
         if rng.random() < 0.25:
             nm = self.pick(used)
@@ -585,7 +624,7 @@ def classify(case: dict):
     if oracle == "tracer" and case.get("missing") and case.get("kind") == "namelist" \
             and str(case.get("scope", "")).startswith("module:"):
         return "C10-module-namelist-no-page"
-    if oracle in ("outfile-shared", "tracer", "anchor-dup"):
+    if oracle in ("outfile-shared", "tracer", "anchor-dup", "entity-url"):
         ents = case.get("entities", [])
         for i, n1 in enumerate(names):
             for n2 in names[i + 1:]:
@@ -696,6 +735,57 @@ def _page_ids(path: Path, confirm=False) -> list[str]:
     return [a if a else b for a, b in ID_RE.findall(txt)]
 
 
+def entity_oracle(sf, ents) -> tuple[list[dict], int]:
+    """Property oracle on the entity objects of a correlated project (nothing needs to be rendered).
+
+    "Distinct documented entities never share an output file ... the page found at an entity's URL
+    documents that entity": two distinct entities must not answer the same `get_url()` (page, or
+    page#anchor).  The only two objects that stand for one documented thing are a
+    `FortranModuleProcedureInterface` and the single procedure it wraps (`wrapper.procedure`).
+    "Distinct items on one page never share an anchor id": two distinct entities with the same parent
+    (siblings are listed together, on the parent's page or wherever the parent is listed) must not have
+    the same `anchor`.
+    Returns (failures [{oracle, why, names}], number of entities looked at)."""
+    by_url: dict = {}
+    by_sib: dict = {}
+    n = 0
+    for e in ents:
+        if not isinstance(getattr(e, "name", None), str):
+            continue
+        try:
+            url, anchor = e.get_url(), e.anchor
+        except Exception:  # entities that cannot say where they are documented: C09's matter
+            continue
+        n += 1
+        if url:
+            by_url.setdefault(url, []).append(e)
+        par = getattr(e, "parent", None)
+        if par is not None:
+            by_sib.setdefault((id(par), anchor), []).append(e)
+
+    def one_thing(a, b):
+        return getattr(a, "procedure", None) is b or getattr(b, "procedure", None) is a
+
+    def show(e):
+        return f"{type(e).__name__} {e.name!r} (in {getattr(getattr(e, 'parent', None), 'name', None)!r})"
+
+    fails = []
+    for url, es in by_url.items():
+        done = False
+        for i, a in enumerate(es):
+            for b in es[i + 1:]:
+                if not one_thing(a, b) and not done:
+                    done = True
+                    fails.append({"oracle": "url-shared", "names": [a.name, b.name],
+                                  "why": f"distinct entities {show(a)} and {show(b)} both have the URL {url!r}"})
+    for (_, anchor), es in by_sib.items():
+        if len(es) > 1:
+            a, b = es[0], es[1]
+            fails.append({"oracle": "sibling-anchor-shared", "names": [a.name, b.name],
+                          "why": f"distinct items {show(a)} and {show(b)} of one parent both have the anchor {anchor!r}"})
+    return fails, n
+
+
 def check_site(proj: dict, doc, out: Path, root: Path, log, stem_of: dict, sf) -> tuple[list[dict], dict]:
     """Evaluate the four oracles.  Returns (failing cases, info)."""
     fails: list[dict] = []
@@ -784,9 +874,11 @@ def check_site(proj: dict, doc, out: Path, root: Path, log, stem_of: dict, sf) -
 
     # ---- 3. anchor-dup
     owners_by_anchor: dict = {}
-    for it in log.items:
-        # the anchor as the code under test computes it (the stem is already registered,
-        # so this does not allocate a new name)
+    asked = {id(it) for it in log.items}
+    for it in list(log.items) + [o for o in objs if id(o) not in asked]:
+        # the anchor as the code under test computes it (for the items of the log the stem is
+        # already registered; an item that never asked for a name of its own - e.g. one that
+        # borrows its parent's - is an owner of whatever anchor it answers, too)
         try:
             owners_by_anchor.setdefault(it.anchor, []).append(it)
         except Exception:
@@ -827,6 +919,11 @@ def check_site(proj: dict, doc, out: Path, root: Path, log, stem_of: dict, sf) -
                      "item of the project has this anchor", [], page=rel, anchor=i)
             else:
                 info["artefacts"]["<non-entity>" + i] = info["artefacts"].get("<non-entity>" + i, 0) + 1
+
+    # ---- 3b. entity-url: distinct entities, distinct URLs; siblings, distinct anchors
+    efails, info["entities_seen"] = entity_oracle(sf, objs)
+    for f in efails[:5]:
+        fail("entity-url", f["why"], f["names"], kind=f["oracle"])
 
     # ---- 4. src-copy
     srcdir = out / "src"
